@@ -12,7 +12,8 @@ STEP_EXCEPTIONS = {
     'ADI.window': ('windowless mode (length 0): push guarded by !window.is_empty()', ('::is_empty(&*self.window)', True)),
     'SWMA.right_window': ('length 1 has no right half: early return when right_window.is_empty()', ('::is_empty(&*self.right_window)', True)),
     'SWMA.left_window': ('length 1: the early-return path of next() answers without touching the (single-element) left window', ('::is_empty(&*self.right_window)', True)),
-    'KaufmanInstance.st_dev': ('stepped iff cfg.filter_period > 1 (a configuration constant): filtering disabled otherwise', ('Gt(*self.cfg.filter_period, 1)', False)),
+    # semantic guard: the path must have established `self.cfg.filter_period <= 1`, however the comparison is written (> 1 false, <= 1 true, < 2 ..)
+    'KaufmanInstance.st_dev': ('stepped iff cfg.filter_period > 1 (a configuration constant): filtering disabled otherwise', ('self.cfg.filter_period', ('le', 1))),
     'AverageDirectionalIndexInstance.plus_di': ('skipped when the averaged true range is exactly 0, where +DI is undefined', ('::next(&*self.tr_ma', True)),
     'AverageDirectionalIndexInstance.minus_di': ('skipped when the averaged true range is exactly 0, where -DI is undefined', ('::next(&*self.tr_ma', True)),
 }
@@ -23,6 +24,36 @@ def unguarded_skips(m, b, fp, guard, depth=0):
     from paths import PathFacts
     token, truth = guard
     site = {}
+
+    def establishes(d, vals):
+        """does taking this decision establish the guard?"""
+        is_true = not (vals != 'otherwise' and 0 in vals)
+        if not isinstance(truth, tuple):
+            return token in tree_str(d) and is_true == truth
+        # (field, ('le', c)): a comparison of that field with a constant which, with the truth value taken, implies field <= c
+        if not (isinstance(d, tuple) and d and d[0] == 'bin' and d[1] in ('Gt', 'Ge', 'Lt', 'Le', 'Eq', 'Ne')):
+            return False
+        op, a, b_ = d[1], d[2], d[3]
+
+        def cst(x):
+            while isinstance(x, tuple) and x and x[0] in ('ref', 'deref', 'cast'):
+                x = x[2] if x[0] == 'cast' else x[1]
+            return x[2] if isinstance(x, tuple) and x and x[0] == 'const' and isinstance(x[2], int) and not isinstance(x[2], bool) else None
+
+        def is_field(x):
+            return tree_str(x).replace('*', '').replace('&', '').replace('(', '').replace(')', '') == token
+        if cst(b_) is not None and is_field(a):
+            c = cst(b_)
+        elif cst(a) is not None and is_field(b_):
+            c = cst(a)
+            op = {'Gt': 'Lt', 'Ge': 'Le', 'Lt': 'Gt', 'Le': 'Ge', 'Eq': 'Eq', 'Ne': 'Ne'}[op]
+        else:
+            return False
+        if not is_true:
+            op = {'Gt': 'Le', 'Ge': 'Lt', 'Lt': 'Ge', 'Le': 'Gt', 'Eq': 'Ne', 'Ne': 'Eq'}[op]
+        bound = truth[1]
+        return (op == 'Le' and c <= bound) or (op == 'Lt' and c <= bound + 1) or (op == 'Eq' and c <= bound)
+
     helpers = {}
     for bi, t in b.calls():
         sf = _stepper_of_call(b, t)
@@ -47,10 +78,8 @@ def unguarded_skips(m, b, fp, guard, depth=0):
         pf = PathFacts(b, p)
         guarded = False
         for d, vals, blk, allv in pf.decisions:
-            if token in tree_str(d):
-                is_true = not (vals != 'otherwise' and 0 in vals)
-                if is_true == truth:
-                    guarded = True
+            if establishes(d, vals):
+                guarded = True
         if guarded:
             continue
         hs = []
@@ -222,7 +251,7 @@ def s07_step_once(ctx, only_types=None, rule_id='S07'):
                     if bad:
                         r.violate(key + '|skipped-outside-exception', 'component %s may legitimately be skipped only when %s; next() also skips it on: %s' % (key, why, bad[0][:200]), b.file, b.line)
                     else:
-                        r.sample({'field': key, 'steps per path': sorted(counts), 'exception': why, 'guard on every skipping path': '%s is %s' % guard})
+                        r.sample({'field': key, 'steps per path': sorted(counts), 'exception': why, 'guard on every skipping path': '%s is %s' % (guard[0], guard[1])})
                     continue
                 if counts == {0}:
                     r.violate(key + '|never-stepped', 'component %s is never stepped by next(): its window no longer holds the last n of anything' % key, b.file, b.line)
